@@ -379,7 +379,9 @@ func (vt *Model) resize(w int, h int) {
 		vt.primaryScreen[i] = make([]cell, w)
 	}
 	last := vt.cursor.row
+	vt.margin.top = 0
 	vt.margin.bottom = row(h) - 1
+	vt.margin.left = 0
 	vt.margin.right = column(w) - 1
 	vt.cursor.row = 0
 	vt.cursor.col = 0
